@@ -63,6 +63,27 @@ def check(chk: Check) -> None:
                             a = [e for e in p.events if e.kind == 'attr_on_none'][0]
                             what = 'AttributeError (`%s` dereferences the None that PLY passes at end of input)' % a.text()
                         problems.append('raises %s, not ParserError' % what)
+            if binding is None:
+                # the token's value is not always a str (numerals carry a Decimal): operations that only strings
+                # support raise TypeError for those tokens, inside the error hook
+                nonstr = sorted(n for n, rm in lm.rules.items() if rm.value_changed)
+                pv = ('attr', ('param', pname), 'value')
+                for p in paths:
+                    for e in p.events:
+                        bad = None
+                        if e.kind == 'call':
+                            f = freeze(e.func)
+                            if f == ('ref', 'builtin', 'len') and freeze(e.args) == (pv,):
+                                bad = 'len(p.value)'
+                            if isinstance(f, tuple) and f and f[0] == 'attr' and f[1] == pv:
+                                bad = 'p.value.%s(...)' % f[2]
+                        if e.kind == 'load_sub' and freeze(e.obj) == pv:
+                            bad = 'p.value[...]'
+                        if e.kind == 'binop' and pv in (freeze(e.left), freeze(e.right)):
+                            bad = 'p.value %s ...' % e.op
+                        if bad and nonstr:
+                            problems.append('`%s` applies a string-only operation (%s) to the offending token\'s value, which is not a '
+                                            'str for %s tokens: a syntax error at such a token escapes as TypeError' % (e.text(), bad, '/'.join(nonstr)))
             chk.require(not problems, R1, '%s [%s]' % (fi.qual, label), fi.where,
                         '; '.join(sorted(set(problems))) or 'raises ParserError on all %d path(s)' % len(paths))
 
